@@ -1,6 +1,7 @@
 package gen
 
 import (
+	"strings"
 	"time"
 )
 
@@ -14,6 +15,9 @@ type Fault struct {
 	MinLevel Level
 	Benign   bool
 	NewPKI   func(seed string) PKISpec // when the fault needs a different PKI
+	// GetterOnly: the fault lives in the shape of the header map a getter returns and cannot be expressed over real HTTP
+	// (which canonicalises header names)
+	GetterOnly bool
 }
 
 // Faults is the catalogue shared by the option-gating and event-log checks.
@@ -66,6 +70,29 @@ var Faults = []Fault{
 		w.Raw = q.Encode()
 		w.Sgx = sgx // the SGX values of the certificate the quote now carries
 	}, MinLevel: LvlBase},
+	{Name: "intermediate-replaced-by-the-other-cas-certificate", Post: func(w *World) {
+		// the chain's second certificate is a CA certificate of the OTHER kind (processor for a platform leaf and vice
+		// versa), genuinely issued by the root; the leaf is not its child, so the chain is invalid — and the PCK CRL, if
+		// asked for at all, is still that of the CA that issued the PCK certificate
+		cn := CNProcessor
+		if w.PKI.Int.X.Subject.CommonName == CNProcessor {
+			cn = CNPlatform
+		}
+		other := MakeCert(CertSpec{CN: cn, KeyLabel: w.PKI.Spec.Seed + "/other-kind-int", Serial: serialOr(nil, w.PKI.Spec.Seed+"/other-kind-int"), NotBefore: Wide.NotBefore, NotAfter: Wide.NotAfter, CA: true, CRLDP: w.PKI.Spec.RootCRLDP}, w.PKI.Root)
+		q := w.Q.Clone()
+		q.Chain = ChainPEM(w.Leaf, other, w.PKI.Root)
+		q.FixSizes()
+		w.Raw = q.Encode()
+	}, MinLevel: LvlBase},
+	{Name: "issuer-chain-header-only-under-two-other-spellings", Post: func(w *World) {
+		// no header under the canonical name; the genuine chain under an all-lower-case name and a foreign chain under
+		// an all-upper-case name: whichever a tolerant lookup would pick, it must pick the same one every time
+		u := TcbInfoURL(w.FmspcHex())
+		r := w.Resp[u]
+		f := NewPKI(PKISpec{Seed: "fault/foreign-header"})
+		r.Header = map[string][]string{strings.ToLower(HdrTcbInfo): r.Header[HdrTcbInfo], strings.ToUpper(HdrTcbInfo): {IssuerChainHeader(f.TcbSig, f.Root)}}
+		w.Resp[u] = r
+	}, MinLevel: LvlColl, GetterOnly: true},
 	{Name: "leaf-expired", Pre: func(w *World) {
 		w.LeafSpec.W = Window{Wide.NotBefore, w.Times.PckCertChain.Add(-time.Hour)}
 	}, MinLevel: LvlBase},
